@@ -305,18 +305,21 @@ impl Real {
             self.o("dead");
             return;
         }
+        // An abstract operation whose arguments make no sense here (unknown file id, ...) is a
+        // no-op that is merely echoed - as in the model driver - so that shrinking a case by
+        // dropping lines cannot manufacture a disagreement.
         let echo = w.join(" ");
         let num = |s: &str| s.parse::<u64>().ok();
         match w {
             ["mk", fid, place] => {
-                let Some(fid) = num(fid) else { return self.o("bad-op") };
+                let Some(fid) = num(fid) else { return self.o(echo) };
                 if fid >= FID_ETC || self.files.contains_key(&fid) {
-                    return self.o("bad-op");
+                    return self.o(echo);
                 }
                 let base = match *place {
                     "root" | "nodir" => self.root_dir.clone(),
                     "shm" => self.shm_dir.clone(),
-                    _ => return self.o("bad-op"),
+                    _ => return self.o(echo),
                 };
                 let dir = base.join(format!("d{}", fid));
                 let path = dir.join("f");
@@ -328,7 +331,7 @@ impl Real {
                 self.o(echo);
             }
             ["touch", fid] => {
-                let Some(p) = num(fid).filter(|f| *f < FID_ETC).and_then(|f| self.path(f)) else { return self.o("bad-op") };
+                let Some(p) = num(fid).filter(|f| *f < FID_ETC).and_then(|f| self.path(f)) else { return self.o(echo) };
                 if let Ok(md) = std::fs::metadata(&p) {
                     let mode = md.permissions().mode() & 0o777;
                     let _ = std::fs::set_permissions(&p, std::fs::Permissions::from_mode(mode ^ 0o020));
@@ -336,16 +339,17 @@ impl Real {
                 self.o(echo);
             }
             ["sleep", ms] => {
-                let Some(ms) = num(ms).filter(|m| *m <= 5000) else { return self.o("bad-op") };
+                let Some(ms) = num(ms).filter(|m| *m <= 5000) else { return self.o(echo) };
                 std::thread::sleep(Duration::from_millis(ms));
                 self.o(echo);
             }
             ["link", fid, target] => {
                 let (Some(p), Some(t)) = (
                     num(fid).filter(|f| *f < FID_ETC).and_then(|f| self.path(f)),
-                    num(target).and_then(|f| self.path(f)),
+                    // never a system file: registered paths get touched (atime) and chmod'ed
+                    num(target).filter(|f| *f < FID_ETC).and_then(|f| self.path(f)),
                 ) else {
-                    return self.o("bad-op");
+                    return self.o(echo);
                 };
                 let _ = std::fs::remove_file(&p);
                 if let Some(d) = p.parent() {
@@ -355,7 +359,7 @@ impl Real {
                 self.o(echo);
             }
             ["kill", fid] => {
-                let Some(p) = num(fid).filter(|f| *f < FID_ETC).and_then(|f| self.path(f)) else { return self.o("bad-op") };
+                let Some(p) = num(fid).filter(|f| *f < FID_ETC).and_then(|f| self.path(f)) else { return self.o(echo) };
                 if let Some(d) = p.parent() {
                     let _ = std::fs::remove_dir_all(d);
                 }
@@ -366,8 +370,8 @@ impl Real {
                 self.after_call(format!("pair {} {}", p.0, p.1), &[p], &[]);
             }
             ["add", fid] => {
-                let Some(fid) = num(fid).filter(|f| *f < FID_ETC) else { return self.o("bad-op") };
-                let Some(p) = self.path(fid) else { return self.o("bad-op") };
+                let Some(fid) = num(fid).filter(|f| *f < FID_ETC) else { return self.o(echo) };
+                let Some(p) = self.path(fid) else { return self.o(echo) };
                 self.o(echo);
                 let res = nv::add_trusted_path(p.clone());
                 match res {
@@ -394,7 +398,7 @@ impl Real {
                 }
             }
             ["obs", fid] => {
-                let Some(p) = num(fid).and_then(|f| self.path(f)) else { return self.o("bad-op") };
+                let Some(p) = num(fid).and_then(|f| self.path(f)) else { return self.o(echo) };
                 self.o(echo);
                 let Ok(file) = std::fs::File::open(&p) else {
                     self.l("obs@ X");
@@ -438,9 +442,9 @@ impl Real {
                 }
             }
             ["mobs", fid, mode] => {
-                let Some(p) = num(fid).and_then(|f| self.path(f)) else { return self.o("bad-op") };
+                let Some(p) = num(fid).and_then(|f| self.path(f)) else { return self.o(echo) };
                 if !matches!(*mode, "prime" | "wait") {
-                    return self.o("bad-op");
+                    return self.o(echo);
                 }
                 self.o(echo);
                 let Ok(file) = std::fs::File::open(&p) else {
@@ -478,7 +482,7 @@ impl Real {
             }
             ["scan", mode] => {
                 if !matches!(*mode, "prime" | "wait") {
-                    return self.o("bad-op");
+                    return self.o(echo);
                 }
                 self.o(echo);
                 let armed = self.before_unclocked_call(mode);
@@ -501,7 +505,7 @@ impl Real {
             }
             ["get", delta, sub] => {
                 let (Ok(delta), Some(sub)) = (delta.parse::<i64>(), num(sub).filter(|s| *s < 1_000_000)) else {
-                    return self.o("bad-op");
+                    return self.o(echo);
                 };
                 self.o(echo);
                 let base = snapshot().0;
@@ -527,8 +531,8 @@ impl Real {
                 self.t(format!("get_{}", if self.last != before { "moved" } else { "same" }));
             }
             ["sr", leeway, delta] => {
-                let Ok(delta) = delta.parse::<i64>() else { return self.o("bad-op") };
-                let leeway_v = if *leeway == "-" { None } else { Some(match num(leeway) { Some(l) => l, None => return self.o("bad-op") }) };
+                let Ok(delta) = delta.parse::<i64>() else { return self.o(echo) };
+                let leeway_v = if *leeway == "-" { None } else { Some(match num(leeway) { Some(l) => l, None => return self.o(echo) }) };
                 self.o(echo);
                 let base = snapshot().0;
                 let now = (base as i128 + delta as i128) * 1_000_000;
@@ -638,9 +642,10 @@ impl Family for NfsFamily {
             ops(&["mk 1 shm", "add 1", "scan prime", "scan wait", "sleep 1150", "scan prime", "scan wait", "unl"]),
             ops(&["mk 1 shm", "mk 2 shm", "add 1", "mobs 2 wait", "sleep 2150", "touch 2", "mobs 2 prime", "mobs 2 wait", "unl"]),
         ];
+        // a stale base and a registered path that is gone: the scan fails, the base stays
+        cases.push(ops(&["mk 1 root", "add 1", "sleep 1150", "mk 2 shm", "scan wait", "add 2", "sleep 1150", "kill 2", "scan wait", "unl"]));
         if thorough {
             cases.push(ops(&["mk 1 root", "mk 2 shm", "add 2", "sleep 2150", "touch 1", "mobs 1 wait", "touch 2", "mobs 90 wait", "mobs 2 wait", "scan wait", "unl"]));
-            cases.push(ops(&["mk 1 root", "add 1", "sleep 1150", "mk 2 shm", "scan wait", "add 2", "sleep 1150", "kill 2", "scan wait", "unl"]));
         }
         cases
     }
@@ -691,7 +696,7 @@ impl Family for NfsFamily {
                 20 => out.push(format!("kill {}", rng.range(1, nfiles))),
                 21 => {
                     let a = rng.range(1, nfiles);
-                    let b = any(rng);
+                    let b = rng.range(1, nfiles);
                     if a != b {
                         out.push(format!("link {} {}", a, b));
                     }
